@@ -12,6 +12,7 @@ gen_tree(rng, kind, depth, mode) -> recipe
     depth 0..5: maximum nesting below this node (0 = a leaf);
     mode  in {"utf8", "wide", "narrow"}: text alphabet (the caller selects the matching urwid encoding,
           see ENCODINGS, *before* build()).
+gen_rooted(rng, cls, mode, depth=2, kind=None) -> recipe whose root is class `cls`;  gen_leaf(rng, kind, mode, cls=None)
 gen_text(rng, mode, maxlen=10, newline=True, as_bytes=None) -> str | {"bytes": latin-1 str}
 build(recipe, registry=None) -> urwid widget
     registry (optional dict) is filled with id(widget) -> (path, recipe_node, widget) for every widget
@@ -698,6 +699,19 @@ def gen_tree(rng, kind, depth, mode):
     if mode not in ENCODINGS:
         raise ValueError(mode)
     return _Gen(rng, mode).node(kind, min(5, max(0, depth)))
+
+
+def gen_rooted(rng, cls, mode, depth=2, kind=None):
+    """recipe whose ROOT is the given decoration / container class (kind: a sizing mode it should support; default: a
+    seeded choice among the kinds the grammar can produce that class for); leaves -> gen_leaf"""
+    if cls in _LEAF_KINDS:
+        return gen_leaf(rng, kind, mode, cls)
+    kinds = [k for k in KINDS if cls in _Gen.PRODS[k]]
+    if kind is None:
+        kind = rng.choice(kinds)
+    elif kind not in kinds:
+        raise ValueError(f"{cls} cannot be generated for kind {kind}")
+    return getattr(_Gen(rng, mode), "mk_" + cls)(kind, max(0, min(5, depth) - 1))
 
 
 def gen_leaf(rng, kind, mode, cls=None):
